@@ -29,6 +29,16 @@ def I(n):
     return z3.IntVal(n)
 
 
+def _multipatterns(groups):
+    out = []
+    for g in groups:
+        try:
+            out.append(z3.MultiPattern(*g))
+        except z3.Z3Exception:
+            pass
+    return out
+
+
 def mk_seq(shape, arrs, n):
     return SeqV(shape, arrs if len(arrs) > 1 else arrs[0], n)
 
@@ -448,6 +458,27 @@ def call_builtin(ex, name, args, kw, node):
         i = z3.Const(fresh_name("ei"), z3.IntSort())
         arrs = [z3.Lambda([i], start + i)] + arrs_of(q)
         return SeqV(TupShape(z3.IntSort(), q.shape), arrs, q.n)
+    if name == "itertools.combinations":
+        # all index pairs i < j of the sequence, each exactly once (documented behaviour; the
+        # order in which the pairs come is not used)
+        q = ex.materialize(to_seq(ex, args[0], node))
+        r = to_num(args[1])
+        if not (isinstance(r, z3.IntNumRef) and r.as_long() == 2):
+            raise Unsupported("itertools.combinations with r != 2")
+        fi = z3.Function(fresh_name("comb.i"), z3.IntSort(), z3.IntSort())
+        fj = z3.Function(fresh_name("comb.j"), z3.IntSort(), z3.IntSort())
+        tt = z3.Function(fresh_name("comb.t"), z3.IntSort(), z3.IntSort(), z3.IntSort())
+        n = z3.Const(fresh_name("comb.len"), z3.IntSort())
+        t, i, j = z3.Ints(f"{fresh_name('ct')} {fresh_name('ci')} {fresh_name('cj')}")
+        arrs1 = [z3.Const(fresh_name("comb.a"), a.sort()) for a in arrs_of(q)]
+        arrs2 = [z3.Const(fresh_name("comb.b"), a.sort()) for a in arrs_of(q)]
+        ex.assume(n >= 0)
+        pointwise = z3.And(*([z3.Select(m, t) == z3.Select(a, fi(t)) for m, a in zip(arrs1, arrs_of(q))] + [z3.Select(m, t) == z3.Select(a, fj(t)) for m, a in zip(arrs2, arrs_of(q))]))
+        ex.assume(V.qforall([t], z3.Implies(z3.And(t >= 0, t < n), z3.And(fi(t) >= 0, fi(t) < fj(t), fj(t) < q.n, pointwise)), patterns=[z3.Select(arrs1[0], t)]))
+        ex.assume(V.qforall([i, j], z3.Implies(z3.And(i >= 0, i < j, j < q.n), z3.And(tt(i, j) >= 0, tt(i, j) < n, fi(tt(i, j)) == i, fj(tt(i, j)) == j)), patterns=[tt(i, j)] + _multipatterns([(z3.Select(a, i), z3.Select(a, j)) for a in arrs_of(q)])))
+        r = SeqV(TupShape(q.shape, q.shape), arrs1 + arrs2, n)
+        r.comb = (fi, fj, tt, q)
+        return r
     if name == "zip":
         qs = [to_seq(ex, a, node) for a in args]
         n = qs[0].n
@@ -564,6 +595,14 @@ def call_builtin_method(ex, recv, name, args, kw, node):
             terms = flatten(recv.shape, x)
             arrs = [z3.Store(a, recv.n, t) for a, t in zip(arrs_of(recv), terms)]
             new = mk_seq(recv.shape, arrs, recv.n + 1)
+            # bridge for E-matching: whenever old[j] is mentioned, new[j] becomes a term too (and
+            # vice versa); vf_trigger is a predicate without content (see Exec.trigger)
+            bj = z3.Const(fresh_name("bj"), z3.IntSort())
+            for a_old, a_new in zip(arrs_of(recv), arrs):
+                if z3.is_const(a_old) or z3.is_app(a_old):
+                    tr = z3.Function("vf_trigger." + str(a_old.sort().range()), a_old.sort().range(), z3.BoolSort())
+                    ex.assume(V.qforall([bj], tr(z3.Select(a_new, bj)), patterns=[z3.Select(a_old, bj)]))
+                    ex.assume(V.qforall([bj], tr(z3.Select(a_old, bj)), patterns=[z3.Select(a_new, bj)]))
             if len(arrs) == 1:
                 # membership after append (a consequence of the definition of seq_mem, stated
                 # with a pattern so that it is used):  y in xs+[v]  <->  y in xs or y == v
